@@ -116,6 +116,14 @@ def retFrames (cfg : HCfg) (trigger : SFrame) : Ret → List SFrame
   | .nothing => []
   | .value j => [returnFrame cfg trigger j]
 
+def sXsContext : String := String.ofList ['x', 's', '.', 'c', 'o', 'n', 't', 'e', 'x', 't']
+
+/-- `Store::check_append` for an output frame (already forced into the handler's context, which
+    is registered - the handler was handed frames of it): no NUL in the topic, and `xs.context`
+    only from the zero context -/
+def storable (f : SFrame) : Bool :=
+  !f.topic.toList.contains (Char.ofNat 0) && (f.topic != sXsContext || f.ctx = 0)
+
 /-- `Handler::serve`, one frame: new state, closure environment, frames emitted (in order),
     was the closure invoked. `σ` is the engine state that `merge_env` carries from one call
     to the next (EngineWorker: one thread, one frame at a time). -/
@@ -131,7 +139,10 @@ def step {σ : Type} (cfg : HCfg) (eval : σ → SFrame → σ × EvalRes) (st :
       match eval env f with
       | (env', .error msg) => (.stopped, env', [unregistered cfg f (some msg)], true)
       | (env', .ok appends ret) =>
-        (.running, env', appends.map (emit cfg f) ++ retFrames cfg f ret, true)
+        -- all-or-nothing: the frames of the call are checked before any is appended
+        if (appends.map (emit cfg f) ++ retFrames cfg f ret).all storable then
+          (.running, env', appends.map (emit cfg f) ++ retFrames cfg f ret, true)
+        else (.stopped, env', [unregistered cfg f (some "unstorable output")], true)
 
 /-- the instance over its whole subscription: final state, emitted frames, and the list of
     (environment given, frame) of every invocation -/
